@@ -271,6 +271,8 @@ pub enum Fin {
     Last,
     Count,
     Nth(usize),
+    /// drop the iterator after the k items (owning iterators: the rest must be dropped with it)
+    Drop,
 }
 
 #[derive(Clone, Debug, PartialEq)]
